@@ -53,6 +53,24 @@ type qgen struct {
 	vars     []string // variable names in scope
 	usedVars map[string]bool
 	budget   int
+	on       map[string]bool // hostile families enabled for this case
+	aliasSeq int
+}
+
+// families of hostile constructs; a case enables a few of them so that most
+// documents get past the first check and reach the deeper code.
+var families = []string{"huge", "strings", "undef_var", "wrong_arg", "vars", "bad_directive", "empty_set", "undef_fragment", "inline_no_type",
+	"unknown_field", "bad_selection", "alias_conflict", "bad_args", "var_defaults", "dup_fragment", "cycle", "unused_fragment", "multi_op",
+	"type_system", "subscription", "frag_wrong_type", "odd_names", "directives", "fragments", "inline_fragments"}
+
+// h reports whether a hostile choice of family fam is taken (pct percent of
+// the time when the family is enabled).
+func (g *qgen) h(fam string, pct int) bool {
+	if !g.on[fam] {
+		return false
+	}
+	g.feat("fam:" + fam)
+	return g.r.Intn(100) < pct
 }
 
 func (g *qgen) feat(f string) { g.feats[f] = true }
@@ -65,14 +83,17 @@ var oddNames = []string{"_", "__", "__x", "on", "fragment", "query", "mutation",
 	"type", "schema", "a1", "A", "zzzzzzzzzzzzzzzzzzzzzzzzzzzzzzzzzzzzzzzzzzzzzzzzzzzzzzzzzzzzzzzz", "__typename", "__schema", "__type", "_federation", "if"}
 
 func (g *qgen) name() string {
-	if g.chance(70) {
+	if !g.h("odd_names", 40) {
 		return g.pick("a", "b", "x", "id", "name", "items", "nope", "f")
 	}
 	return oddNames[g.r.Intn(len(oddNames))]
 }
 
 func (g *qgen) intLit() string {
-	switch g.r.Intn(12) {
+	if !g.on["huge"] {
+		return strconv.Itoa(g.r.Intn(300) - 20)
+	}
+	switch g.r.Intn(8) {
 	case 0:
 		g.feat("val:huge_int")
 		return g.pick("9223372036854775807", "9223372036854775808", "-9223372036854775809", "99999999999999999999999999999999", "18446744073709551616")
@@ -91,7 +112,10 @@ func (g *qgen) intLit() string {
 }
 
 func (g *qgen) floatLit() string {
-	switch g.r.Intn(8) {
+	if !g.on["huge"] {
+		return strconv.FormatFloat(g.r.Float64()*100-10, 'f', 1+g.r.Intn(4), 64)
+	}
+	switch g.r.Intn(4) {
 	case 0:
 		g.feat("val:huge_float")
 		return g.pick("1e400", "-1E400", "1.7976931348623159e308", "123456789e999999999", "1.5e-400", "0.0e99999")
@@ -103,7 +127,10 @@ func (g *qgen) floatLit() string {
 }
 
 func (g *qgen) stringLit() string {
-	switch g.r.Intn(12) {
+	if !g.on["strings"] {
+		return `"` + g.pick("a", "x y", "item1", "id", "MQ==") + `"`
+	}
+	switch g.r.Intn(8) {
 	case 0:
 		return `""`
 	case 1:
@@ -111,7 +138,7 @@ func (g *qgen) stringLit() string {
 		return g.pick(`"Aé"`, `"\ud800"`, `"\n\t\r\b\f\/\\\""`, `"\u0000"`, `"￿􏿿"`)
 	case 2:
 		g.feat("val:string_unicode")
-		return g.pick("\"héllo ☃ \U0001F600\"", "\"‮﻿\"")
+		return g.pick("\"héllo ☃ \U0001F600\"", "\"‮\ufeff\"")
 	case 3:
 		g.feat("val:string_long")
 		return `"` + strings.Repeat(g.pick("a", "ab", "é"), 200+g.r.Intn(2000)) + `"`
@@ -123,7 +150,7 @@ func (g *qgen) stringLit() string {
 }
 
 func (g *qgen) varRef() string {
-	if len(g.vars) > 0 && g.chance(75) {
+	if len(g.vars) > 0 && !g.h("undef_var", 50) {
 		v := g.vars[g.r.Intn(len(g.vars))]
 		g.usedVars[v] = true
 		return "$" + v
@@ -180,11 +207,11 @@ func (g *qgen) anyValue(depth int) string {
 // valueFor produces a literal that fits the declared argument type (most of
 // the time), so that PrepareQuery and Execute are reached.
 func (g *qgen) valueFor(t graphql.Type, depth int) string {
-	if g.chance(12) {
+	if g.h("wrong_arg", 25) {
 		g.feat("arg:wrong_type")
 		return g.anyValue(2)
 	}
-	if g.chance(12) {
+	if (len(g.vars) > 0 || g.on["undef_var"]) && g.h("vars", 30) {
 		g.feat("val:variable")
 		return g.varRef()
 	}
@@ -212,13 +239,13 @@ func (g *qgen) valueFor(t graphql.Type, depth int) string {
 				parts = append(parts, n+": "+g.valueFor(x.InputFields[n], depth-1))
 			}
 		}
-		if g.chance(8) {
+		if g.h("wrong_arg", 15) {
 			parts = append(parts, g.name()+": "+g.anyValue(1))
 		}
 		return "{" + strings.Join(parts, ", ") + "}"
 	case *graphql.Enum:
 		g.feat("val:enum")
-		if len(x.Values) > 0 && g.chance(85) {
+		if len(x.Values) > 0 && !g.h("wrong_arg", 15) {
 			return x.Values[g.r.Intn(len(x.Values))]
 		}
 		return g.pick("NOPE", "null", "alpha")
@@ -234,9 +261,15 @@ func (g *qgen) valueFor(t graphql.Type, depth int) string {
 		case x.Type == "bool":
 			return g.pick("true", "false")
 		case x.Type == "Time":
-			return g.pick(`"2020-01-02T03:04:05Z"`, `"2020-01-02T03:04:05.999999999+07:00"`, `"yesterday"`, `"0000-00-00T00:00:00Z"`)
+			if g.h("wrong_arg", 30) {
+				return g.pick(`"yesterday"`, `"0000-00-00T00:00:00Z"`, `"2020-13-45T00:00:00Z"`)
+			}
+			return g.pick(`"2020-01-02T03:04:05Z"`, `"2020-01-02T03:04:05.999999999+07:00"`)
 		case x.Type == "bytes":
-			return g.pick(`"MQ=="`, `""`, `"****"`, `"QUJD"`)
+			if g.h("wrong_arg", 30) {
+				return g.pick(`"****"`, `"M"`, `"MQ="`)
+			}
+			return g.pick(`"MQ=="`, `""`, `"QUJD"`)
 		default:
 			return g.stringLit()
 		}
@@ -245,6 +278,15 @@ func (g *qgen) valueFor(t graphql.Type, depth int) string {
 }
 
 func (g *qgen) directive() string {
+	if !g.on["bad_directive"] {
+		if len(g.vars) > 0 && g.on["vars"] && g.chance(30) {
+			g.feat("dir:if_variable")
+			return "@" + g.pick("skip", "include") + "(if: " + g.varRef() + ")"
+		}
+		g.feat("dir:skip_include_bool")
+		return "@" + g.pick("skip", "include") + "(if: " + g.pick("true", "false") + ")"
+	}
+	g.feat("fam:bad_directive")
 	switch g.r.Intn(14) {
 	case 0, 1, 2:
 		g.feat("dir:skip_include_bool")
@@ -278,19 +320,19 @@ func (g *qgen) directive() string {
 }
 
 func (g *qgen) directives(pct int) string {
-	if !g.chance(pct) {
+	if !(g.on["directives"] || g.on["bad_directive"]) || !g.chance(pct) {
 		return ""
 	}
 	out := " " + g.directive()
-	if g.chance(15) {
+	if g.h("bad_directive", 15) {
 		out += " " + g.directive()
 	}
 	return out
 }
 
 func (g *qgen) typeNameFor(parent string) string {
-	if g.chance(70) && parent != "" {
-		if td := g.d.Types[parent]; td != nil && td.Union && len(td.Members) > 0 && g.chance(70) {
+	if !g.h("frag_wrong_type", 50) && parent != "" {
+		if td := g.d.Types[parent]; td != nil && td.Union && len(td.Members) > 0 && g.chance(80) {
 			return td.Members[g.r.Intn(len(td.Members))]
 		}
 		return parent
@@ -307,21 +349,21 @@ func (g *qgen) args(fd *fieldDesc) string {
 	if fd != nil {
 		for _, a := range fd.Args {
 			_, required := a.Type.(*graphql.NonNull)
-			if required && g.chance(92) || !required && g.chance(30) {
+			if required && !g.h("bad_args", 15) || !required && g.chance(30) {
 				parts = append(parts, a.Name+": "+g.valueFor(a.Type, 3))
 			}
 		}
 	}
-	if g.chance(6) {
+	if g.h("bad_args", 20) {
 		g.feat("arg:unknown")
 		parts = append(parts, g.name()+": "+g.anyValue(3))
 	}
-	if len(parts) > 0 && g.chance(4) {
+	if len(parts) > 0 && g.h("bad_args", 15) {
 		g.feat("arg:duplicate")
 		parts = append(parts, parts[0])
 	}
 	if len(parts) == 0 {
-		if g.chance(3) {
+		if g.h("bad_args", 10) {
 			g.feat("arg:empty_parens")
 			return "()"
 		}
@@ -542,7 +584,7 @@ func (g *qgen) document() string {
 	doc := strings.Join(defs, g.pick("\n", " ", "\n\n# comment { ... }\n", ",,,"))
 	if g.chance(3) {
 		g.feat("doc:bom_or_comment")
-		doc = g.pick("﻿", "# only a comment\n", "\n\n\t , ") + doc
+		doc = g.pick("\ufeff", "# only a comment\n", "\n\n\t , ") + doc
 	}
 	return doc
 }
